@@ -306,14 +306,15 @@ def reduce_all(rots, expr):
 
 @unit("cosserat_rod_forcing_grids", props=("C08", "C09"), kernels=False,
       configs=[dict(kind="nodal", dim=d) for d in (2, 3)] + [dict(kind="element_centric", dim=d) for d in (2, 3)]
-      + [dict(kind="edge", dim=2), dict(kind="surface", dim=3)],
+      + [dict(kind="edge", dim=2), dict(kind="surface", dim=3)]
+      + [dict(kind=k, dim=d, E=E, _tier="thorough") for k, d in (("nodal", 3), ("element_centric", 3), ("edge", 2), ("nodal", 2))
+         for E in (1, 3, 4)],
       assumes=("M5 quaternion parametrisation of director frames",
-               "layouts bounded: 2 elements; surface grid: one element with 3 surface markers (symbolic unit directions, "
+               "layouts bounded: 2 elements (thorough tier: also 1, 3 and 4 elements for the nodal, element-centric and edge grids); surface grid: one element with 3 surface markers (symbolic unit directions, "
                "symbolic cap ratios), one element with a single centre marker",
                "edge grid: rod in the XY plane (the class' own documented assumption)"))
-def cosserat_rod_forcing_grids(K, kind, dim):
+def cosserat_rod_forcing_grids(K, kind, dim, E=2):
     _NATIVE[0] = K.mode != "sym"
-    E = 2
     planar = dim == 2
     rod, rots = rod_stub(K, E, planar)
     clsname = {"nodal": "CosseratRodNodalForcingGrid", "element_centric": "CosseratRodElementCentricForcingGrid",
